@@ -459,11 +459,12 @@ META = {
                  "validated by TLC against the same step operator; repeated under 4 and 16 threads",
     "level_text": "TLC model-checks History.tla over every history up to length 3-4 of a full product alphabet "
                   "(ResultIsFresh, HiddenStateFrozen, JitOnlyGrows, RepeatIdempotent, DefaultIsExplicit; five broken "
-                  "designs rejected). TLC then generates histories over ~65 concrete calls built to collide (simulation; "
-                  "thorough: also all ordered pairs of 12 calls); each is replayed in one process of the real library "
+                  "designs rejected). TLC then generates histories over 44 (quick) / 89 (thorough) concrete calls built to "
+                  "collide (simulation; thorough: also all ordered pairs of 12 calls); each is replayed in one process of the real library "
                   "logging result digest, defaults, module tables, JIT signature counts after every call; "
                   "History_Trace.tla judges each step against the fresh-interpreter digest and the frozen hidden state; "
                   "a subset is repeated with 4 and 16 Numba/dask threads. Histories are sampled, not exhaustive.",
-    "level_note": "Trusted: TLC; sha1 digests of results; one fresh subprocess per distinct call as reference (1 thread); "
+    "level_note": "Trusted: TLC; sha1 digests of results; reference = one fresh subprocess per distinct call (thorough) or fresh "
+                  "subprocesses shared by calls of different module families (quick), 1 thread; "
                   "inputs rebuilt per call; thread interleavings are sampled only (no kernel uses parallel=True today).",
 }
